@@ -16,7 +16,6 @@ NEXT, RETURN, RAISE, BREAK, CONTINUE = "next", "return", "raise", "break", "cont
 
 class State:
     __slots__ = ("vars", "facts", "trace")
-    alias_of = {}
 
     def __init__(self, vars=None, facts=None, trace=()):
         self.vars = dict(vars or {})
@@ -29,16 +28,18 @@ class State:
     def key(self):
         return (frozenset(self.vars.items()), frozenset(self.facts.items()))
 
-    def with_var(self, name, values, alias_of=None):
+    def alias_src(self, name):
+        return self.facts.get("alias:" + name)
+
+    def with_var(self, name, values):
         s = self.copy()
         vals = frozenset(values)
         s.vars[name] = vals
-        table = alias_of if alias_of is not None else State.alias_of
-        # mirror the refinement to the expression this name aliases and to its other aliases
-        src = table.get(name, name)
-        for k, v in table.items():
-            if v == src and k != name:
-                s.vars[k] = vals
+        # mirror the refinement to the expression this name aliases and to its other aliases (aliases are per path)
+        src = self.facts.get("alias:" + name, name)
+        for k, v in self.facts.items():
+            if k.startswith("alias:") and v == src and k[6:] != name:
+                s.vars[k[6:]] = vals
         if src != name:
             s.vars[src] = vals
         return s
@@ -146,13 +147,15 @@ class Semantics:
         self.finfo = finfo
         self.module = finfo.module
         self.h = Hierarchy(index)
-        self.alias_of = {}  # local name -> text of the tracked expression it was assigned from
+        self.alias_of = {}  # last alias seen per name (informational; the per-path table lives in the state facts)
 
-    def dom(self, text):
+    def dom(self, text, state=None):
         """Domain of a tracked expression or of a local alias of one."""
         d = self.domain(text)
-        if d is None and text in self.alias_of:
-            d = self.domain(self.alias_of[text])
+        if d is None and state is not None:
+            src = state.alias_src(text)
+            if src is not None:
+                d = self.domain(src)
         return d
 
     # --- domains
@@ -298,10 +301,10 @@ class Explorer:
         if isinstance(expr, ast.Constant):
             return [(bool(expr.value), state)]
         text = ast.unparse(expr)
-        if text in state.vars or sem.dom(text) is not None:
+        if text in state.vars or sem.dom(text, state) is not None:
             dom = state.vars.get(text)
             if dom is None:
-                dom = frozenset(sem.dom(text))
+                dom = frozenset(sem.dom(text, state))
             t = frozenset(v for v in dom if sem.truthy(v))
             f = dom - t
             out = []
@@ -328,7 +331,7 @@ class Explorer:
         def dom_of(text):
             if text in state.vars:
                 return state.vars[text]
-            d = sem.dom(text)
+            d = sem.dom(text, state)
             return frozenset(d) if d is not None else None
 
         ld, rd = dom_of(lt), dom_of(rt)
@@ -417,19 +420,21 @@ class Explorer:
             if isinstance(t, ast.Name) and (t.id.startswith("__ret") or t.id.startswith("__done")) and isinstance(value, ast.Constant):
                 state = state.copy()
                 state.vars[text] = frozenset([value.value])
-                sem.alias_of.pop(text, None)
+                state.facts.pop("alias:" + text, None)
                 continue
             if isinstance(t, ast.Name) and value is not None:
                 vt = ast.unparse(value)
-                if sem.dom(vt) is not None and vt != text:
-                    sem.alias_of[text] = sem.alias_of.get(vt, vt)
-                    State.alias_of = sem.alias_of
+                if (sem.dom(vt, state) is not None or vt in state.vars) and vt != text:
+                    src = state.alias_src(vt) or vt
+                    sem.alias_of[text] = src
                     cur = state.vars.get(vt)
-                    state = state.copy()
-                    state.vars[text] = cur if cur is not None else frozenset(sem.dom(vt))
+                    state = state.with_fact("alias:" + text, src)
+                    d0 = sem.dom(vt, state)
+                    state.vars[text] = cur if cur is not None else (frozenset(d0) if d0 is not None else frozenset())
                     continue
-                elif text in sem.alias_of:
-                    del sem.alias_of[text]
+                elif state.alias_src(text) is not None:
+                    state = state.copy()
+                    state.facts.pop("alias:" + text, None)
             dom = sem.domain(text)
             if dom is not None or text in state.vars:
                 vals = sem.assign(text, value, state)
